@@ -210,18 +210,24 @@ pub fn run(ctx: &mut Ctx) {
         }
     }
     let tier = ctx.tier;
-    let per_type = if ctx.slow_tool { 2 } else { tier.pick(600u64, 30_000u64) };
+    let per_type = if ctx.slow_tool { 2 } else { tier.pick(4_000u64, 400_000u64) };
     for (ti, code) in TYPED_CODES.iter().enumerate() {
         for k in 0..per_type {
             let idx = ti as u64 * 10_000_000 + k;
             if ctx.take("tuple", idx) {
+                if ctx.stop("tuple") {
+                    break;
+                }
                 tuple_case(ctx, *code, idx);
             }
         }
     }
-    let nrej = if ctx.slow_tool { 18 } else { tier.pick(9_000u64, 300_000u64) };
+    let nrej = if ctx.slow_tool { 18 } else { tier.pick(60_000u64, 3_000_000u64) };
     for idx in 0..nrej {
         if ctx.take("reject", idx) {
+            if ctx.stop("reject") {
+                break;
+            }
             rejection_case(ctx, idx);
         }
     }
